@@ -2,6 +2,7 @@ import Gossamer.Props.C06
 open Gossamer Gossamer.C06
 #print axioms C06_root_eq_spec
 #print axioms C06_reopen
+#print axioms C06_get
 #print axioms C06_root_eq_spec_partial
 #print axioms C06_reopen_partial
 #print axioms C06_reopen_collision
